@@ -225,7 +225,12 @@ def run_matrix(ctx, A, origin, st, is_stochastic):
     for x in nojit:
         if [i for i in range(n) if x[i] != 0] != supp0:
             ctx.fail("gth_options", "use_jit=False selects a different class", inp, x.tolist(), jit[0].tolist())
-    st["gth"].append(tup("%d%%nat" % n, ql2(Afl), fl2(Afl), flist(jit[0]), qlist([frac(v) for v in jit[0]]),
+    # exact Q instance: every case in the thorough tier; in the quick tier all n<=6 and every third larger one
+    # (the float instance is compared bit-exactly on all, and the Fraction oracle above is exact on all)
+    st["big"] += n >= 7
+    doq = ctx.tier == "thorough" or n <= 6 or st["big"] % 3 == 1
+    ctx.count("coq_Q_instance:" + ("run" if doq else "skipped_quick_tier"))
+    st["gth"].append(tup(blit(doq), "%d%%nat" % n, ql2(Afl), fl2(Afl), flist(jit[0]), qlist([frac(v) for v in jit[0]]),
                          qlist([frac(v) for v in nojit[0]])))
     st["gth_meta"].append(inp)
     # ---------------- MarkovChain.stationary_distributions
@@ -273,7 +278,9 @@ def run_matrix(ctx, A, origin, st, is_stochastic):
             if f in rows_by_form and rows_by_form[f] != rows_by_form["dense"]:
                 ctx.fail("sd_forms", "sparse / mc_compute_stationary result differs from dense", dict(inp, form=f), rows_by_form[f], rows_by_form["dense"])
         rows = rows_by_form["dense"]
-        st["sd"].append(tup("%d%%nat" % n, ql2(Afl), fl2(Afl), flist2(rows), qlist2([[frac(v) for v in r] for r in rows])))
+        # irreducible: stationary_distributions is gth_solve(P), whose Q comparison is the gth case above
+        doq2 = (doq and n <= 6) if len(comps) == 1 else (ctx.tier == "thorough" or max(len(c) for c in rec) <= 6 or doq)
+        st["sd"].append(tup(blit(doq2), "%d%%nat" % n, ql2(Afl), fl2(Afl), flist2(rows), qlist2([[frac(v) for v in r] for r in rows])))
         st["sd_meta"].append(inp)
 
 
@@ -281,7 +288,7 @@ def run(ctx):
     thorough = ctx.tier == "thorough"
     ctx.proofs()
     rng = ctx.rng
-    st = {"gth": [], "gth_meta": [], "sd": [], "sd_meta": []}
+    st = {"gth": [], "gth_meta": [], "sd": [], "sd_meta": [], "big": 0}
     reps = 4 if thorough else 1
     # 1. irreducible stochastic and generator matrices, n = 1..8
     for n in range(1, 9):
@@ -318,16 +325,22 @@ def run(ctx):
     # 4. sparse P with stored zeros: same graph, same number of rows
     stored_zero_stream(ctx)
     # ---------------- Coq: float instance bit-exact, Q instance within n*1e-13 relative
-    ok = ("fun c => let '(n, AQ, AF, xf, xq, xnj) := c in let tol := (Z.of_nat n # 10000000000000) in "
-          "let xe := gthQ n AQ in Fs_eq (gthF n AF) xf && Qs_relclose' tol xq xe && Qs_relclose' tol xnj xe")
-    bad = ctx.coq_check("gth_solve", IMPORTS, "nat * list (list Q) * list (list float) * list float * list Q * list Q",
-                        ok, st["gth"], chunk=40)
+    def spread(cases, meta):   # deterministic shuffle so that expensive (large n) cases are spread over the chunks
+        idx = list(range(len(cases)))
+        random.Random(ctx.seed).shuffle(idx)
+        return [cases[i] for i in idx], [meta[i] for i in idx]
+    st["gth"], st["gth_meta"] = spread(st["gth"], st["gth_meta"])
+    st["sd"], st["sd_meta"] = spread(st["sd"], st["sd_meta"])
+    ok = ("fun c => let '(doq, n, AQ, AF, xf, xq, xnj) := c in let tol := (Z.of_nat n # 10000000000000) in "
+          "Fs_eq (gthF n AF) xf && (if doq then let xe := gthQ n AQ in Qs_relclose' tol xq xe && Qs_relclose' tol xnj xe else true)")
+    bad = ctx.coq_check("gth_solve", IMPORTS, "bool * nat * list (list Q) * list (list float) * list float * list Q * list Q",
+                        ok, st["gth"], chunk=16)
     for i in bad[:10]:
         ctx.mismatch("C02.Model.gthF (bit-exact) / gthQ (rel n*1e-13) vs gth_solve", st["gth_meta"][i])
-    ok = ("fun c => let '(n, AQ, AF, rf, rq) := c in let tol := (Z.of_nat n # 10000000000000) in "
-          "Fss_eq (stationaryF n AF) rf && Qss_relclose' tol rq (stationaryQ n AQ)")
-    bad = ctx.coq_check("stationary_distributions", IMPORTS, "nat * list (list Q) * list (list float) * list (list float) * list (list Q)",
-                        ok, st["sd"], chunk=40)
+    ok = ("fun c => let '(doq, n, AQ, AF, rf, rq) := c in let tol := (Z.of_nat n # 10000000000000) in "
+          "Fss_eq (stationaryF n AF) rf && (if doq then Qss_relclose' tol rq (stationaryQ n AQ) else true)")
+    bad = ctx.coq_check("stationary_distributions", IMPORTS, "bool * nat * list (list Q) * list (list float) * list (list float) * list (list Q)",
+                        ok, st["sd"], chunk=16)
     for i in bad[:10]:
         ctx.mismatch("C02.Model.stationaryF (bit-exact) / stationaryQ (rel n*1e-13) vs MarkovChain.stationary_distributions", st["sd_meta"][i])
 
